@@ -1,6 +1,6 @@
 (* Decimal.Reduce: trailing-zero stripping is exact (C19). *)
 From Coq Require Import ZArith Lia Bool.
-From Apd Require Import Generated.Consts Model.Base Model.NumDigits Model.Decimal Proofs.Digits.
+From Apd Require Import Generated.Consts Model.Base Model.NumDigits Model.Decimal Spec.SpecZ Proofs.Digits Proofs.Core.
 Open Scope Z_scope.
 
 Section WithEst.
@@ -82,3 +82,15 @@ Proof.
 Qed.
 
 End WithEst.
+
+(* the expected digit count used for 10^k + delta beyond the sizes the model is evaluated at *)
+Lemma expected_digits_pow10_sound k delta : 1 <= k -> -1 <= delta <= 1 ->
+  ndigits (10 ^ k + delta) = expected_digits_pow10 k delta.
+Proof.
+  intros Hk Hd. unfold expected_digits_pow10.
+  pose proof (pow10_pos k ltac:(lia)) as Hp. pose proof (pow10_pos (k - 1) ltac:(lia)) as Hp1.
+  assert (E : 10 ^ k = 10 * 10 ^ (k - 1)) by (replace k with ((k - 1) + 1) at 1 by lia; rewrite pow10_succ by lia; reflexivity).
+  destruct (Z.ltb_spec delta 0).
+  - assert (delta = -1) by lia. subst delta. apply ndigits_of_bounds; lia.
+  - apply ndigits_of_bounds; [lia|]. replace (k + 1 - 1) with k by lia. rewrite pow10_succ by lia. lia.
+Qed.
